@@ -15,6 +15,18 @@ def main():
     ap.add_argument("--replay", default=None)
     a = ap.parse_args()
     seed = int(os.environ.get("VERIF_SEED", "0") or 0)
+    tier = a.tier
+    if a.replay:
+        # a replay file records the seed and tier of the run that wrote it: every random choice derives from the seed,
+        # so re-running with them regenerates the recorded case (modules with a targeted replay run only that case)
+        import json
+        try:
+            rec = json.load(open(a.replay))
+            seed = int(rec.get("seed", seed))
+            tier = rec.get("tier", tier) if rec.get("tier") in ("quick", "thorough") else tier
+        except (OSError, ValueError) as e:
+            print(f"cannot read replay file: {e}", file=sys.stderr)
+            sys.exit(2)
     try:
         mod = importlib.import_module(a.prop.lower())
     except ModuleNotFoundError as e:
@@ -23,7 +35,7 @@ def main():
             sys.exit(2)
         raise
     try:
-        rc = common.run_check(mod, a.tier, seed, a.replay)
+        rc = common.run_check(mod, tier, seed, a.replay)
     except Exception:
         traceback.print_exc()
         sys.exit(2)
